@@ -92,12 +92,14 @@ class RunRecord:
 
 
 def real_run(driver, init, limit, script=(), entry="fit", orders=None, task_fault=None,
-             phase_fault=None, pool="virtual", relabel_script=None, real_random=False):
+             phase_fault=None, pool="virtual", relabel_script=None, real_random=False, deep=True):
     """One complete run of the real code under scripted seams (real_random: the donor draw is left to the
     library's own use of the global generator; the caller seeds it)."""
     import fast_ticc
     from fast_ticc import main_loop
     TRACER.install()
+    # explicit: the flag is process-wide and other engines (E3, front-end probes) switch it off
+    TRACER.deep = deep
     TRACER.begin(init_labels=init, donor_script=script, pool_factory=pool, orders=orders,
                  task_fault=task_fault, phase_fault=phase_fault, real_random=real_random)
     if relabel_script is not None:
